@@ -178,4 +178,5 @@ package dns
 //@   assert at "return original" notsub: !callres("IsSubDomain")
 //@   assert at "// origin == s" same: len(olabels) == m && len(olabels) == len(slabels)
 //@   assert at "return s[:slabels[len(slabels)-m]-1]" cut: callres("IsSubDomain") && m == callres("CompareDomainName")
+//@   callsite "IsSubDomain" fq: (forall k in 0..len(original) :: arg1[k] == original[k]) && len(arg1) >= len(original) && len(arg1) <= len(original) + 1
 //@   exit prefix: callres("IsSubDomain") && !(len(ret0) == 1 && ret0[0] == '@') ==> sliceoff(ret0) == sliceoff(s) && len(ret0) == slabels[len(slabels) - m] - 1
